@@ -21,6 +21,9 @@ CONFIGS = [{'options': {'output.format': False}}, {}, {'syntax': 'xml'},
            {'options': {'output.selfClosingStyle': 'xhtml', 'output.format': False}}]
 
 
+MODEL_MAX_NODES = 120
+
+
 class Case:
     __slots__ = ('abbr', 'cfg', 'exp', 'label', 'why')
 
@@ -156,7 +159,7 @@ class Gen:
             nodes = u.rand_forest(rng, self.names, rng.randint(1, 14 if big else 7), max_depth=5,
                                   rep_max=30 if rng.random() < 0.2 else 6, p_num=rng.choice([0.3, 0.5, 0.8]))
             total = u.total_repeat_copies(nodes)
-            if total > 500:
+            if total > (500 if rng.random() < 0.05 else 150):
                 continue
             r = rng.random()
             if r < 0.3 or total == 0:
@@ -259,7 +262,9 @@ def run_cases(ctx, model, cases):
                                      'expand(%r, %s): %s' % (c.abbr, canon_cfg(c.cfg), bad),
                                      {'kind': 'expand', 'abbr': c.abbr, 'config': c.cfg, 'expected': to_json(c.exp),
                                       'output': r[1][:2000] if r[0] == 'ok' else repr(r), 'why': bad})
-        if model is not None:
+        if model is not None and c.exp is not None and u.count_nodes(c.exp) > MODEL_MAX_NODES:
+            ctx.cover('model:skipped-large-output')     # the extracted model keeps positions in unary nat
+        elif model is not None:
             try:
                 wires.append([2] + enc_config(c.cfg) + enc_str(c.abbr))
                 idx.append(k)
@@ -306,7 +311,7 @@ def run(ctx):
     g.corpus()
     g.forms()
     g.skeletons()
-    g.random(3000 if ctx.tier == 'quick' else 110000)
+    g.random(3000 if ctx.tier == "quick" else 60000)
     for k, abbr in enumerate(TIE_ONLY):
         for cfg in ({'options': {'output.format': False}}, {'options': {'output.format': False}, 'maxRepeat': 2 + k % 3}):
             g.cases.append(Case(abbr, cfg, None, 'tie-only'))
